@@ -95,6 +95,10 @@ var DefaultCoercers = struct {
 			}
 			return convVal, nil
 		case float64:
+			// NaN, Inf and values beyond the int range have no integer image
+			if v != v || v >= 9223372036854775808.0 || v < -9223372036854775808.0 {
+				return nil, fmt.Errorf("float64 value %v is out of range for int", v)
+			}
 			return int(v), nil
 		case bool:
 			if v {
